@@ -44,6 +44,11 @@ RULE = ("case = grid (0..2 unpacked parameters) + rep_max + skip pattern + "
         "actually fired after at least one completed save of a partial file "
         "and before completion, or during a save (open/prefix/rename); "
         "distinct = SHA-1 of the case")
+RULE += (" Added after the white-box review: "
+         "interruption kinds kill / Ctrl-C / ordinary exception; final "
+         "mode 'jobs' = one simulate(index) per variation, then "
+         "simulate() ")
+
 ASSUMPTIONS = [
     "a crash is the death of the Python process between two file-system "
     "calls; what is on disk at that moment is what the restart sees",
